@@ -24,6 +24,9 @@ pub enum KeyFamily {
     PrefixChain,
     /// empty key, runs of 0x00 / 0xff, keys differing in the last byte
     Adversarial,
+    /// keys at and just below the documented maximum key length (16 KiB), and around half of it;
+    /// neighbours differ in the last byte or are prefixes of each other
+    Long,
 }
 
 pub fn key_family() -> impl Strategy<Value = KeyFamily> {
@@ -32,6 +35,7 @@ pub fn key_family() -> impl Strategy<Value = KeyFamily> {
         2 => Just(KeyFamily::SharedPrefix),
         2 => Just(KeyFamily::PrefixChain),
         3 => Just(KeyFamily::Adversarial),
+        1 => Just(KeyFamily::Long),
     ]
 }
 
@@ -82,6 +86,27 @@ pub fn universe(f: KeyFamily, n: usize) -> Vec<Vec<u8>> {
             ];
             pool.into_iter().take(n.max(1)).collect()
         }
+        KeyFamily::Long => {
+            const MAX: usize = 1 << 14;
+            let mut pool: Vec<Vec<u8>> = vec![
+                vec![b'L'; MAX],
+                vec![b'L'; MAX - 1],
+                { let mut k = vec![b'L'; MAX - 1]; k.push(b'K'); k },
+                { let mut k = vec![b'L'; MAX - 1]; k.push(0xff); k },
+                vec![b'L'; MAX / 2],
+                { let mut k = vec![b'L'; MAX / 2]; k.push(0); k },
+                vec![b'M'; MAX],
+                vec![b'K'],
+                vec![b'L'],
+                vec![b'M'],
+            ];
+            for i in 0..n.saturating_sub(pool.len()) {
+                let mut k = vec![b'L'; 4000 + 37 * i];
+                k.push(b'A' + (i % 26) as u8);
+                pool.push(k);
+            }
+            pool.into_iter().take(n.max(1)).collect()
+        }
     };
     keys.sort();
     keys.dedup();
@@ -91,7 +116,8 @@ pub fn universe(f: KeyFamily, n: usize) -> Vec<Vec<u8>> {
 /// A value whose content is recognisable by `tag` (so a stale read is distinguishable from a
 /// fresh one) and whose length comes from a size class.
 pub fn value(tag: u32, size_class: u8) -> Vec<u8> {
-    const SIZES: [usize; 8] = [0, 1, 10, 10, 200, 900, 2500, 30_000];
+    // class 8 is the documented maximum value length (32 KiB); classes 0..=7 keep their old meaning
+    const SIZES: [usize; 9] = [0, 1, 10, 10, 200, 900, 2500, 30_000, 1 << 15];
     let n = SIZES[(size_class as usize) % SIZES.len()];
     let t = format!("<{tag}>");
     let mut v = Vec::with_capacity(n);
